@@ -159,6 +159,148 @@ func c20ExpandProgress(w *core.World, r *core.Report) {
 	}
 }
 
+// c20ExpandProgressKinds (K8b): for a leaf or a leaf-list ExpandUpdate hands its input back (there is nothing to
+// expand), so the recursion of ConvertNotificationTypedValues ends for those kinds only because the conversion step
+// (the callee whose nil result guards the call of ExpandUpdate) never answers (nil, nil) for an update that carries a
+// value: it converts or reports an error. The rule finds the step structurally and demands, for every 'return nil,
+// nil' of it that lies on the "schema is a leaf-list" / "schema is a leaf" outcome, a dominating 'value == nil'
+// outcome (no value -> no JSON blob -> no expansion).
+func c20ExpandProgressKinds(w *core.World, r *core.Report) {
+	exp := w.Func("pkg/utils", "Converter", "ExpandUpdate")
+	conv := w.Func("pkg/utils", "Converter", "ConvertNotificationTypedValues")
+	if exp == nil || conv == nil {
+		return
+	}
+	// kinds for which ExpandUpdate puts its input into the result without a preceding JSON decode of a container
+	upd := core.Param(exp, "upd")
+	handsBack := map[string]bool{}
+	if upd != nil {
+		decs := core.CallsTo(exp, "encoding/json.Decoder.Decode")
+		for _, b := range core.Blocks(exp) {
+			for _, in := range b.Instrs {
+				st, ok := in.(*ssa.Store)
+				if !ok {
+					continue
+				}
+				if _, isElem := st.Addr.(*ssa.IndexAddr); !isElem || !core.HasOrigin(st.Val, upd) {
+					continue
+				}
+				after := false
+				for _, d := range decs {
+					if core.InstrBefore(d, st) {
+						after = true
+					}
+				}
+				if after {
+					continue
+				}
+				for _, a := range core.GuardAtoms(st) {
+					if !a.True {
+						continue
+					}
+					for _, o := range append(core.Origins(a.Cond), a.Cond) {
+						var t types.Type
+						switch x := o.(type) {
+						case *ssa.TypeAssert:
+							t = x.AssertedType
+						case *ssa.Extract:
+							if ta, ok := x.Tuple.(*ssa.TypeAssert); ok && x.Index == 1 {
+								t = ta.AssertedType
+							}
+						}
+						if t == nil {
+							continue
+						}
+						switch {
+						case strings.HasSuffix(t.String(), "sdcpb.SchemaElem_"+"Leaflist"):
+							handsBack["Leaflist"] = true
+						case strings.HasSuffix(t.String(), "sdcpb.SchemaElem_"+"Field"):
+							handsBack["Field"] = true
+						}
+					}
+				}
+			}
+		}
+	}
+	// the conversion step: result 0 of a repository callee, nil-tested on the way to the call of ExpandUpdate
+	var step *ssa.Function
+	core.WithoutInlining(func() {
+		for _, c := range core.OwnCallsTo(conv, "utils.Converter.ExpandUpdate") {
+			for _, a := range core.GuardAtoms(c) {
+				x, nilOnTrue, ok := core.NilTest(a.Cond)
+				if !ok || nilOnTrue != a.True {
+					continue
+				}
+				for _, oc := range core.OriginCalls(x) {
+					if g := oc.Call.StaticCallee(); g != nil && g.Blocks != nil && strings.HasPrefix(core.PkgPath(g), "github.com/sdcio/data-server") {
+						step = g
+					}
+				}
+			}
+		}
+	})
+	if step == nil || len(handsBack) == 0 {
+		r.Undecided("EXPAND-PROGRESS", core.Site(conv, "conversion step"), w.Pos(conv.Pos()), fmt.Sprintf("cannot identify the conversion step whose nil result leads to ExpandUpdate (found: %v) or the kinds ExpandUpdate hands back (%d)", step != nil, len(handsBack)))
+		return
+	}
+	getter := map[string]string{"Leaflist": "github.com/sdcio/sdc-protos/sdcpb.SchemaElem.GetLeaflist", "Field": "github.com/sdcio/sdc-protos/sdcpb.SchemaElem.GetField"}
+	isCallTo := func(v ssa.Value, key string) bool {
+		for _, oc := range core.OriginCalls(v) {
+			if core.CalleeIs(oc, key) {
+				return true
+			}
+		}
+		return false
+	}
+	core.WithoutInlining(func() {
+		for _, ret := range core.Returns(step) {
+			rv := core.ReturnValues(ret)
+			if len(rv) != 2 || !core.IsNilConst(rv[0]) || !core.IsNilConst(rv[1]) {
+				continue
+			}
+			atoms := core.GuardAtoms(ret)
+			kind, noValue := "", false
+			for _, a := range atoms {
+				var x ssa.Value
+				var isNil bool
+				if y, nilOnTrue, ok := core.NilTest(a.Cond); ok {
+					x, isNil = y, nilOnTrue == a.True
+				} else if ta, ok := a.Cond.(*ssa.Extract); ok && a.True {
+					// 'case *sdcpb.SchemaElem_Leaflist' of a type switch
+					if t, ok := ta.Tuple.(*ssa.TypeAssert); ok && ta.Index == 1 {
+						for k := range getter {
+							if strings.HasSuffix(t.AssertedType.String(), "sdcpb.SchemaElem_"+k) {
+								kind = k
+							}
+						}
+					}
+					continue
+				} else {
+					continue
+				}
+				for k, key := range getter {
+					if !isNil && isCallTo(x, key) {
+						kind = k
+					}
+				}
+				if isNil && (isCallTo(x, "github.com/sdcio/sdc-protos/sdcpb.Update.GetValue") || core.FieldOf(x) == "github.com/sdcio/sdc-protos/sdcpb.Update.Value") {
+					noValue = true
+				}
+			}
+			if kind == "" || !handsBack[kind] {
+				continue
+			}
+			site := core.Site(step, "answers nothing for a %s with a value", strings.ToLower(kind))
+			if noValue {
+				r.OK("EXPAND-PROGRESS", core.Site(step, "(nil, nil) for a %s only without a value", strings.ToLower(kind)), w.InstrPos(ret), "")
+				continue
+			}
+			r.Viol("EXPAND-PROGRESS", site, w.InstrPos(ret), "the conversion step returns (nil, nil) for an update on a "+strings.ToLower(kind)+" that carries a value; for a JSON value ConvertNotificationTypedValues then calls ExpandUpdate, which hands the same update back for this kind, and recurses on it without end (stack overflow on a device message)")
+		}
+	})
+	r.OK("EXPAND-PROGRESS", core.Site(step, "conversion step checked for the kinds ExpandUpdate hands back"), w.Pos(step.Pos()), fmt.Sprintf("kinds: %d", len(handsBack)))
+}
+
 // okGuarded: the converted pointer is result i of 'p, ok := f()' where every nil return of f carries ok == false, and
 // the conversion executes only on the ok == true outcome of that call.
 func okGuarded(mi *ssa.MakeInterface) bool {
